@@ -1,5 +1,6 @@
 import CrdtModel.Spec.OrswotSys
 import CrdtModel.Spec.Lattice
+import CrdtModel.Spec.GListSys
 set_option linter.unusedSectionVars false
 /-!
 # C02 — merge is a join: commutative, associative, idempotent on reachable states
@@ -88,6 +89,11 @@ theorem lwwreg_laws {ν : Type} [DecidableEq ν] (r0 : LWWReg ν α) {U Ka Kb Kc
     (hc : (lwwSys r0).Reach U c Kc) :
     a.merge b = b.merge a ∧ (a.merge b).merge c = a.merge (b.merge c) ∧ a.merge a = a :=
   ⟨merge_comm (R := lwwSys r0) wf ha hb, merge_assoc (R := lwwSys r0) wf ha hb hc, merge_idem (R := lwwSys r0) wf ha⟩
+theorem glist_laws {τ : Type} [LinOrd τ] {U Ka Kb Kc : List (GListOp τ)} {a b c : GList τ} (ha : glistSys.Reach U a Ka)
+    (hb : glistSys.Reach U b Kb) (hc : glistSys.Reach U c Kc) :
+    a.merge b = b.merge a ∧ (a.merge b).merge c = a.merge (b.merge c) ∧ a.merge a = a :=
+  ⟨merge_comm (R := glistSys) trivial ha hb, merge_assoc (R := glistSys) trivial ha hb hc,
+   merge_idem (R := glistSys) trivial ha⟩
 end lattice_reachable
 
 end Crdt.C02
